@@ -32,8 +32,8 @@ type Case struct {
 }
 
 var (
-	optsPlain  = sg.Opts{Special: true, TextBlocks: true, YAMLStyles: true}
-	optsLocals = sg.Opts{Special: true, TextBlocks: true, YAMLStyles: true, Locals: true}
+	optsPlain  = sg.Opts{Special: true, TextBlocks: true, YAMLStyles: true, ZeroWeights: true, YAMLOrder: true, FileTails: true}
+	optsLocals = sg.Opts{Special: true, TextBlocks: true, YAMLStyles: true, ZeroWeights: true, YAMLOrder: true, FileTails: true, Locals: true}
 )
 
 // written is the description on the shared in-memory filesystem.
@@ -51,8 +51,11 @@ type written struct {
 // that remembers anything by file name shows up as the HCL or the YAML side lagging behind the file.
 var caseDir = pand.TempName("c16", "")
 
-func write(m sg.Model) (*written, error) {
-	w := &written{dir: caseDir}
+func write(m sg.Model) (*written, error) { return writeIn(m, caseDir) }
+
+// writeIn writes the description and its two renderings into dir.
+func writeIn(m sg.Model, dir string) (*written, error) {
+	w := &written{dir: dir}
 	w.m = m.Rebase(w.dir)
 	fs := pand.FS()
 	if err := fs.MkdirAll(w.dir, 0o755); err != nil {
@@ -140,6 +143,32 @@ func deliver(w *written, file string, n int) ([]any, error) {
 
 func check(c Case, o *vf.Obs) error { return checkWith(c, o, nil) }
 
+// readBoth reads the two renderings through config.ReadAmmoConfig, one after the other: both must load, both must
+// be what the description states field by field, and so equal to each other. It returns the two normalised readings.
+func readBoth(w *written) (nh, ny any, err error) {
+	fs := pand.FS()
+	ch, err := config.ReadAmmoConfig(fs, w.hcl)
+	if err != nil {
+		return nil, nil, fmt.Errorf("ReadAmmoConfig(x.hcl) failed for a description that is valid in both syntaxes: %w", err)
+	}
+	cy, err := config.ReadAmmoConfig(fs, w.yml)
+	if err != nil {
+		return nil, nil, fmt.Errorf("ReadAmmoConfig(x.yaml) failed for a description that is valid in both syntaxes: %w", err)
+	}
+	nh, ny = norm(ch), norm(cy)
+	want := wantConfig(w.m)
+	if d := diff(ny, want, "AmmoConfig", "x.yaml", "the description"); d != "" {
+		return nil, nil, fmt.Errorf("the YAML rendering is not read as the description states: %s", d)
+	}
+	if d := diff(nh, ny, "AmmoConfig", "x.hcl", "x.yaml"); d != "" {
+		return nil, nil, fmt.Errorf("the HCL and the YAML rendering of one description are read differently: %s", d)
+	}
+	if d := diff(nh, want, "AmmoConfig", "x.hcl", "the description"); d != "" {
+		return nil, nil, fmt.Errorf("the HCL rendering is not read as the description states: %s", d)
+	}
+	return nh, ny, nil
+}
+
 func checkWith(c Case, o *vf.Obs, r *vf.Run) (err error) {
 	classify(c.Model, o)
 	w, err := write(c.Model)
@@ -159,21 +188,8 @@ func checkWith(c Case, o *vf.Obs, r *vf.Run) (err error) {
 			return fmt.Errorf("harness: the description's own locals do not evaluate: %w", err)
 		}
 	}
-	fs := pand.FS()
-	ch, err := config.ReadAmmoConfig(fs, w.hcl)
-	if err != nil {
-		return fmt.Errorf("ReadAmmoConfig(x.hcl) failed for a description that is valid in both syntaxes: %w", err)
-	}
-	cy, err := config.ReadAmmoConfig(fs, w.yml)
-	if err != nil {
-		return fmt.Errorf("ReadAmmoConfig(x.yaml) failed for a description that is valid in both syntaxes: %w", err)
-	}
-	nh, ny := norm(ch), norm(cy)
-	if d := diff(nh, ny, "AmmoConfig", "x.hcl", "x.yaml"); d != "" {
-		return fmt.Errorf("the HCL and the YAML rendering of one description are read differently: %s", d)
-	}
-	if d := diff(nh, wantConfig(w.m), "AmmoConfig", "x.hcl", "the description"); d != "" {
-		return fmt.Errorf("the HCL rendering is not read as the description states: %s", d)
+	if _, _, err := readBoth(w); err != nil {
+		return err
 	}
 	n := len(w.m.Ring()) + 1
 	ah, err := deliver(w, w.hcl, n)
@@ -272,6 +288,12 @@ func classify(m sg.Model, obs *vf.Obs) {
 	for _, s := range m.Scenarios {
 		opt(s.Weight != nil)
 		opt(s.MinWaitingTime != nil)
+		if s.Weight != nil && *s.Weight == 0 {
+			o.Class("weight_zero")
+			o.ClassIf(len(m.Scenarios) == 1, "weight_zero_only_scenario")
+			o.ClassIf(len(m.Scenarios) > 1, "weight_zero_among_several")
+		}
+		o.ClassIf(s.MinWaitingTime != nil && *s.MinWaitingTime == 0, "min_waiting_time_zero")
 		for _, st := range s.Steps {
 			switch {
 			case st.Sleep:
@@ -311,6 +333,22 @@ func classify(m sg.Model, obs *vf.Obs) {
 		o.Class("hcl_block_order_permuted")
 	}
 	o.ClassIf(m.Layout.YAMLEmptySections, "yaml_empty_sections")
+	if len(m.Layout.YAMLOrder) > 0 {
+		o.Class("yaml_key_order_permuted")
+		for _, ym := range sg.YAMLMappings(m) {
+			if ym.Path == "" {
+				o.ClassIf(ym.Keys[len(ym.Keys)-1] != "scenarios", "yaml_scenarios_section_not_last")
+				o.ClassIf(ym.Keys[0] == "scenarios" && len(ym.Keys) > 1, "yaml_scenarios_section_first")
+				continue
+			}
+			last := ym.Keys[len(ym.Keys)-1]
+			o.ClassIf(last == "body" || last == "payload", "yaml_body_or_payload_last_key")
+			o.ClassIf(ym.Keys[0] != "type" && ym.Keys[0] != "name", "yaml_entry_starts_with_other_key")
+		}
+	}
+	if m.Layout.HCLTail != "" {
+		o.Class("hcl_tail_" + m.Layout.HCLTail)
+	}
 	m.WalkStrings(func(path, s string) {
 		if strings.HasSuffix(path, ".key") {
 			return
@@ -414,6 +452,25 @@ func classifyYAMLStyles(w *written, obs *vf.Obs) {
 			o.ClassIf(strings.Contains(a.Text, "\t"), "yaml_double_quoted_literal_tab")
 		}
 	}
+	if a := w.ymlStats.Last; a != nil {
+		// the document ends inside a hand-written scalar
+		o.Class("yaml_ends_with_hand_scalar")
+		if a.Style.Style == sg.StyleLiteral || a.Style.Style == sg.StyleFolded {
+			o.Class("yaml_ends_with_block_scalar")
+			o.Class("yaml_ends_with_" + a.Style.Style)
+			header, _, _ := strings.Cut(a.Text, "\n")
+			// the final line break(s) of the file belong to the value
+			o.ClassIf(strings.HasSuffix(a.Value, "\n"), "yaml_ends_with_block_scalar_owning_final_newline")
+			o.ClassIf(strings.HasSuffix(a.Value, "\n") && !strings.Contains(header, "+"), "yaml_ends_with_block_scalar_clip")
+			o.ClassIf(strings.Contains(header, "+"), "yaml_ends_with_block_scalar_keep")
+			o.ClassIf(strings.HasSuffix(a.Value, "\n\n"), "yaml_ends_with_block_scalar_keep_blank_lines")
+			o.ClassIf(strings.HasSuffix(a.Path, ".body") || strings.HasSuffix(a.Path, ".payload"), "yaml_ends_with_body_or_payload_block")
+		}
+	}
+	if w.ymlStats.Tail != "" {
+		o.Class("yaml_tail_" + w.ymlStats.Tail)
+	}
+	o.ClassIf(w.ymlStats.TailFallback, "yaml_tail_fallback")
 	for _, p := range w.ymlStats.Fallback {
 		o.Class("yaml_style_fallback")
 		o.Class("yaml_style_fallback_" + w.m.Layout.YAMLStyles[p].Style)
